@@ -12,7 +12,7 @@
    unconditional forms are stated at the end of this file. *)
 From Coq Require Import ZArith List Bool.
 From Coq Require Import Floats.SpecFloat.
-From PV Require Import Lib.PyBase Spec.TdFloat Gen.Constants Model.Duration Gen.DurationOps Model.DurationOps Proofs.C09Facts Proofs.C10Facts Proofs.C10History Proofs.FloatRoundTripC09 Proofs.FloatRoundTripC10.
+From PV Require Import Lib.PyBase Spec.TdFloat Gen.Constants Model.Duration Gen.DurationOps Model.DurationOps Proofs.C09Facts Proofs.C10Facts Proofs.C10History Proofs.FloatRoundTripC09 Proofs.FloatRoundTripC10 Proofs.C10Reflected.
 Import ListNotations.
 Open Scope Z_scope.
 
@@ -492,3 +492,69 @@ Theorem model_is_code_hyps : (forall d s us ms mi h w y mo r, duration_new d s u
   /\ (forall x y mo r, duration_new_fsec x y mo = Ok r -> d_abs r = false).
 Proof. exact (conj duration_new_class duration_new_fsec_class). Qed.
 Print Assumptions model_is_code_hyps.
+
+(* ---- a plain timedelta on the LEFT, every kind of Interval on the right (Proofs/C10Reflected.v) ----
+   inherited_reflected m: m is - // / % divmod, the operators whose reflected form neither Duration nor Interval defines (g50 fails closed if
+   Duration starts defining one).  interval_new_abs delta a is Interval(start, start + delta, absolute=a) (hand model of the end-point swap of
+   Interval.__new__, tied by the reflected-* / absolute-left-* / interval-unary streams); interval_neg / interval_abs are Interval.__neg__ / __abs__. *)
+(* timedelta <op> P is timedelta's own arithmetic on the native length of P, and the class of P (Duration / Interval) is irrelevant *)
+Theorem reflected_operators_are_native : forall m n d, inherited_reflected m = true ->
+  arith_op m (VTd n) (VDur d) = not_impl_to_type_error (td_binop m n (d_N d)) /\
+  arith_op m (VTd n) (VIvl d) = not_impl_to_type_error (td_binop m n (d_N d)).
+Proof. exact reflected_is_native. Qed.
+Print Assumptions reflected_operators_are_native.
+
+Theorem reflected_operand_class_irrelevant : forall m n d, inherited_reflected m = true ->
+  arith_op m (VTd n) (VIvl d) = arith_op m (VTd n) (VDur d).
+Proof. exact reflected_class_irrelevant. Qed.
+Print Assumptions reflected_operand_class_irrelevant.
+
+Theorem timedelta_minus_interval_is_plain_exact : forall n i, td_in_range (n - d_N i) = true -> arith_op 2 (VTd n) (VIvl i) = Ok (RTd (n - d_N i)).
+Proof. exact timedelta_minus_interval. Qed.
+Print Assumptions timedelta_minus_interval_is_plain_exact.
+
+(* an absolute Interval is the same object whichever end point is given first, and its native length is |end - start| *)
+Theorem absolute_interval_order_irrelevant : forall delta, interval_new_abs delta true = interval_new_abs (- delta) true.
+Proof. exact absolute_order_irrelevant. Qed.
+Print Assumptions absolute_interval_order_irrelevant.
+
+Theorem interval_native_length : forall delta a i, Z.abs delta < 2 ^ 33 * 10 ^ 6 -> interval_new_abs delta a = Ok i ->
+  d_N i = if a then Z.abs delta else delta.
+Proof. exact interval_new_abs_native. Qed.
+Print Assumptions interval_native_length.
+
+(* timedelta - <absolute Interval> = n - |end - start| (never n + |end - start|), in either order of the end points *)
+Theorem timedelta_minus_absolute_interval_exact : forall n delta i, Z.abs delta < 2 ^ 33 * 10 ^ 6 -> td_in_range (n - Z.abs delta) = true ->
+  interval_new_abs delta true = Ok i -> arith_op 2 (VTd n) (VIvl i) = Ok (RTd (n - Z.abs delta)).
+Proof. exact timedelta_minus_absolute_interval. Qed.
+Print Assumptions timedelta_minus_absolute_interval_exact.
+
+Theorem timedelta_minus_absolute_interval_example :
+  exists i, interval_new_abs (-282600000250) true = Ok i /\
+            arith_op 2 (VTd 864000000000) (VIvl i) = Ok (RTd (864000000000 - 282600000250)).
+Proof. exact reflected_example. Qed.
+Print Assumptions timedelta_minus_absolute_interval_example.
+
+(* -i: exact for a signed / inverted Interval; an absolute Interval is its own negation, which REFUTES "negation gives the native length"
+   there (finding neg-absolute-interval); the partial form names the region where it holds *)
+Theorem interval_negation_signed : forall delta i, Z.abs delta < 2 ^ 33 * 10 ^ 6 -> interval_neg delta false = Ok i -> d_N i = - delta.
+Proof. exact interval_neg_signed. Qed.
+Print Assumptions interval_negation_signed.
+
+Theorem interval_negation_absolute_is_identity : forall delta, interval_neg delta true = interval_new_abs delta true.
+Proof. exact interval_neg_absolute_fixed. Qed.
+Print Assumptions interval_negation_absolute_is_identity.
+
+Theorem interval_negation_native_refuted : exists delta i j,
+  interval_new_abs delta true = Ok i /\ interval_neg delta true = Ok j /\ d_N j <> - d_N i.
+Proof. exact interval_neg_absolute_refuted. Qed.
+Print Assumptions interval_negation_native_refuted.
+
+Theorem interval_negation_native_partial : forall delta a i j, Z.abs delta < 2 ^ 33 * 10 ^ 6 -> (a = false \/ delta = 0) ->
+  interval_new_abs delta a = Ok i -> interval_neg delta a = Ok j -> d_N j = - d_N i.
+Proof. exact interval_neg_partial. Qed.
+Print Assumptions interval_negation_native_partial.
+
+Theorem interval_abs_native_length : forall delta a i, Z.abs delta < 2 ^ 33 * 10 ^ 6 -> interval_abs delta a = Ok i -> d_N i = Z.abs delta.
+Proof. exact interval_abs_native. Qed.
+Print Assumptions interval_abs_native_length.
